@@ -269,6 +269,252 @@ type Enc = fn(&Module) -> Result<Vec<u8>, String>;
 type Dec = fn(&[u8]) -> Result<Module, String>;
 const FORMS: [(&str, Enc, Dec); 4] = [("cbor", cbor, uncbor), ("rkyv", rk, unrk), ("json", json, unjson), ("postcard", pc, unpc)];
 
+
+// ------------------------------------------------------------------ serde data-model view of a value
+
+/// A `serde::Serializer` that writes the data-model tree of a value as the token string the Lean
+/// model reads (`u<n> i<n> b0|b1 s<hex> N S q<n> t<n> v<idx>`): exactly what a `Serialize` impl
+/// tells ANY serializer, so field / variant orders are those of the real derive output, independent
+/// of postcard's byte-level encoding.
+mod valser {
+    use serde::ser::{self, Serialize};
+    use vh::hex;
+
+    #[derive(Debug)]
+    pub struct Unsupported(pub String);
+    impl std::fmt::Display for Unsupported {
+        fn fmt(&self, f: &mut std::fmt::Formatter<'_>) -> std::fmt::Result {
+            write!(f, "{}", self.0)
+        }
+    }
+    impl std::error::Error for Unsupported {}
+    impl ser::Error for Unsupported {
+        fn custom<T: std::fmt::Display>(m: T) -> Self {
+            Unsupported(m.to_string())
+        }
+    }
+
+    #[derive(Default)]
+    pub struct ValSer {
+        pub out: Vec<String>,
+    }
+
+    pub fn tokens<T: Serialize>(v: &T) -> Result<Vec<String>, Unsupported> {
+        let mut s = ValSer::default();
+        v.serialize(&mut s)?;
+        Ok(s.out)
+    }
+
+    type R = Result<(), Unsupported>;
+
+    impl<'a> ser::Serializer for &'a mut ValSer {
+        type Ok = ();
+        type Error = Unsupported;
+        type SerializeSeq = Self;
+        type SerializeTuple = Self;
+        type SerializeTupleStruct = Self;
+        type SerializeTupleVariant = Self;
+        type SerializeMap = Self;
+        type SerializeStruct = Self;
+        type SerializeStructVariant = Self;
+
+        fn serialize_bool(self, v: bool) -> R {
+            self.out.push(format!("b{}", v as u8));
+            Ok(())
+        }
+        fn serialize_i8(self, v: i8) -> R { self.serialize_i64(v.into()) }
+        fn serialize_i16(self, v: i16) -> R { self.serialize_i64(v.into()) }
+        fn serialize_i32(self, v: i32) -> R { self.serialize_i64(v.into()) }
+        fn serialize_i64(self, v: i64) -> R {
+            self.out.push(format!("i{v}"));
+            Ok(())
+        }
+        fn serialize_u8(self, v: u8) -> R { self.serialize_u64(v.into()) }
+        fn serialize_u16(self, v: u16) -> R { self.serialize_u64(v.into()) }
+        fn serialize_u32(self, v: u32) -> R { self.serialize_u64(v.into()) }
+        fn serialize_u64(self, v: u64) -> R {
+            self.out.push(format!("u{v}"));
+            Ok(())
+        }
+        fn serialize_f32(self, _: f32) -> R { Err(Unsupported("f32".into())) }
+        fn serialize_f64(self, _: f64) -> R { Err(Unsupported("f64".into())) }
+        fn serialize_char(self, _: char) -> R { Err(Unsupported("char".into())) }
+        fn serialize_str(self, v: &str) -> R {
+            self.out.push(format!("s{}", hex(v.as_bytes())));
+            Ok(())
+        }
+        fn serialize_bytes(self, _: &[u8]) -> R { Err(Unsupported("bytes".into())) }
+        fn serialize_none(self) -> R {
+            self.out.push("N".into());
+            Ok(())
+        }
+        fn serialize_some<T: ?Sized + Serialize>(self, v: &T) -> R {
+            self.out.push("S".into());
+            v.serialize(self)
+        }
+        fn serialize_unit(self) -> R {
+            self.out.push("t0".into());
+            Ok(())
+        }
+        fn serialize_unit_struct(self, _: &'static str) -> R { self.serialize_unit() }
+        fn serialize_unit_variant(self, _: &'static str, idx: u32, _: &'static str) -> R {
+            self.out.push(format!("v{idx}"));
+            self.out.push("t0".into());
+            Ok(())
+        }
+        fn serialize_newtype_struct<T: ?Sized + Serialize>(self, _: &'static str, v: &T) -> R {
+            v.serialize(self)
+        }
+        fn serialize_newtype_variant<T: ?Sized + Serialize>(self, _: &'static str, idx: u32, _: &'static str, v: &T) -> R {
+            self.out.push(format!("v{idx}"));
+            self.out.push("t1".into());
+            v.serialize(self)
+        }
+        fn serialize_seq(self, len: Option<usize>) -> Result<Self, Unsupported> {
+            let n = len.ok_or_else(|| Unsupported("seq without length".into()))?;
+            self.out.push(format!("q{n}"));
+            Ok(self)
+        }
+        fn serialize_tuple(self, len: usize) -> Result<Self, Unsupported> {
+            self.out.push(format!("t{len}"));
+            Ok(self)
+        }
+        fn serialize_tuple_struct(self, _: &'static str, len: usize) -> Result<Self, Unsupported> {
+            self.serialize_tuple(len)
+        }
+        fn serialize_tuple_variant(self, _: &'static str, idx: u32, _: &'static str, len: usize) -> Result<Self, Unsupported> {
+            self.out.push(format!("v{idx}"));
+            self.out.push(format!("t{len}"));
+            Ok(self)
+        }
+        fn serialize_map(self, len: Option<usize>) -> Result<Self, Unsupported> {
+            let n = len.ok_or_else(|| Unsupported("map without length".into()))?;
+            self.out.push(format!("q{n}"));
+            Ok(self)
+        }
+        fn serialize_struct(self, _: &'static str, len: usize) -> Result<Self, Unsupported> {
+            self.out.push(format!("t{len}"));
+            Ok(self)
+        }
+        fn serialize_struct_variant(self, _: &'static str, idx: u32, _: &'static str, len: usize) -> Result<Self, Unsupported> {
+            self.out.push(format!("v{idx}"));
+            self.out.push(format!("t{len}"));
+            Ok(self)
+        }
+    }
+
+    macro_rules! compound {
+        ($tr:ident, $m:ident) => {
+            impl<'a> ser::$tr for &'a mut ValSer {
+                type Ok = ();
+                type Error = Unsupported;
+                fn $m<T: ?Sized + Serialize>(&mut self, v: &T) -> R {
+                    v.serialize(&mut **self)
+                }
+                fn end(self) -> R {
+                    Ok(())
+                }
+            }
+        };
+    }
+    compound!(SerializeSeq, serialize_element);
+    compound!(SerializeTuple, serialize_element);
+    compound!(SerializeTupleStruct, serialize_field);
+    compound!(SerializeTupleVariant, serialize_field);
+
+    impl<'a> ser::SerializeMap for &'a mut ValSer {
+        type Ok = ();
+        type Error = Unsupported;
+        fn serialize_key<T: ?Sized + Serialize>(&mut self, k: &T) -> R {
+            self.out.push("t2".into());
+            k.serialize(&mut **self)
+        }
+        fn serialize_value<T: ?Sized + Serialize>(&mut self, v: &T) -> R {
+            v.serialize(&mut **self)
+        }
+        fn end(self) -> R {
+            Ok(())
+        }
+    }
+    impl<'a> ser::SerializeStruct for &'a mut ValSer {
+        type Ok = ();
+        type Error = Unsupported;
+        fn serialize_field<T: ?Sized + Serialize>(&mut self, _: &'static str, v: &T) -> R {
+            v.serialize(&mut **self)
+        }
+        fn end(self) -> R {
+            Ok(())
+        }
+    }
+    impl<'a> ser::SerializeStructVariant for &'a mut ValSer {
+        type Ok = ();
+        type Error = Unsupported;
+        fn serialize_field<T: ?Sized + Serialize>(&mut self, _: &'static str, v: &T) -> R {
+            v.serialize(&mut **self)
+        }
+        fn end(self) -> R {
+            Ok(())
+        }
+    }
+}
+
+/// postcard form of the module's `ModuleV0` vs the Lean model `Model/ModuleWire.lean`
+fn wire_lines(rec: &mut Recorder, rng: &mut Rng, m: &Module) {
+    let ModuleData::V0(v0) = &m.data;
+    let bytes = match postcard::to_allocvec(v0) {
+        Ok(b) => b,
+        Err(e) => {
+            rec.oracle_fail(format!("postcard cannot encode ModuleV0: {e}"));
+            return;
+        }
+    };
+    let toks = match valser::tokens(v0) {
+        Ok(t) => t,
+        Err(e) => {
+            rec.oracle_fail(format!("ModuleV0 uses a serde type the model does not know: {e}"));
+            return;
+        }
+    };
+    rec.count_n("wire-bytes", bytes.len() as u64);
+    // model: encode(value tree) must be these bytes
+    rec.line(format!("pcenc {}", toks.join(" ")), format!("ok {} {}", fnv(&hex(&bytes)), bytes.len()));
+    // model: decode(bytes) must be this value tree; S level: the real round trip
+    match postcard::from_bytes::<aranya_policy_module::ModuleV0>(&bytes) {
+        Ok(back) => {
+            if &back != v0 {
+                rec.oracle_fail("postcard: decoded ModuleV0 differs from the original");
+            }
+            match postcard::to_allocvec(&back) {
+                Ok(b2) if b2 == bytes => {}
+                _ => rec.oracle_fail("postcard: re-encoding the decoded ModuleV0 gives different bytes"),
+            }
+            let t2 = valser::tokens(&back).unwrap_or_default();
+            rec.line(format!("pcdec {}", hex(&bytes)), format!("ok {} {}", fnv(&t2.join(" ")), t2.len()));
+        }
+        Err(e) => {
+            rec.oracle_fail(format!("postcard cannot decode its own ModuleV0 encoding: {e}"));
+            rec.line(format!("pcdec {}", hex(&bytes)), "err");
+        }
+    }
+    // every strict prefix must be rejected (the encoding is prefix-free)
+    for _ in 0..2 {
+        let cut = rng.below(bytes.len() as u64) as usize;
+        let real = match vh::catch(|| postcard::from_bytes::<aranya_policy_module::ModuleV0>(&bytes[..cut]).is_ok()) {
+            Ok(true) => {
+                rec.oracle_fail(format!("postcard accepted a strict prefix ({cut} of {} bytes) of a ModuleV0", bytes.len()));
+                "ok"
+            }
+            Ok(false) => "err",
+            Err(p) => {
+                rec.panics.push(format!("from_bytes on a truncated module: {p}"));
+                "panic"
+            }
+        };
+        rec.count("wire-truncations");
+        rec.line(format!("pcdec {}", hex(&bytes[..cut])), real);
+    }
+}
+
 // ------------------------------------------------------------------ execution
 
 fn show_run(w: &mut pk::World, calls: &[(String, Vec<Vec<Value>>)]) -> Vec<String> {
@@ -408,6 +654,7 @@ fn one_case(rec: &mut Recorder, rng: &mut Rng, scratch: &std::path::Path, forms:
         }
     };
     table_lines(rec, &m1, &machine1);
+    wire_lines(rec, rng, &m1);
     // ---- serialized forms
     let mut reloaded: Vec<(&'static str, Machine)> = vec![];
     for (fname, enc, dec) in FORMS {
